@@ -753,7 +753,10 @@ def _parse_phase_numpydoc_and_google(
                                 if style is Style.google
                                 else {
                                     "typ": scanned[return_tokens[0]][0][0],
-                                    "doc": scanned[return_tokens[0]][0][1].lstrip(),
+                                    # every line of the description, like `_parse` does for a parameter
+                                    "doc": "\n".join(
+                                        map(str.lstrip, scanned[return_tokens[0]][0][1:])
+                                    ),
                                 },
                             ),
                             infer_type=infer_type,
